@@ -83,7 +83,7 @@ def c16_plan(tier, seed, known):
     return {
         "jobs": jobs,
         "level": "fault_enumeration",
-        "rule": ("L1: one seeded history (2..12 operations incl. flush, close/reopen, drop/reopen, metadata; depth 1..6, sometimes 20 in "
+        "rule": ("L1: one seeded history (2..12 operations incl. flush, close/reopen, drop/reopen, metadata; depth 1..6, sometimes 8 or 10 in "
                  "thorough; swarm-chosen sled configuration) on a path-backed PmTree or RLN instance is first run fault-free with the full "
                  "oracle (root, leaves, leaf count, metadata, empty list after every step and after every reopen), then re-run once per "
                  "failure position k = 1,2,.. of its storage writes/flushes (until position k is no longer reached: every position is "
